@@ -52,3 +52,154 @@ Section Accept.
   Definition spec_accepts (d : decl) (v : pyval) : bool :=
     type_ok d v && tz_ok d v && allowed_ok d v && range_ok d v.
 End Accept.
+
+(* ------------------------------------------------------------------ ISO 8601 input spellings *)
+(* An independent reading of the texts a date/time data type must accept on input ("all accepted
+   spellings of ISO timestamps on input", "all dates 0001..9999").  Nothing here refers to the
+   generated matcher table (Gen/DateMatchers.v), to the model's tokens / regular-expression /
+   strptime interpreter, or to the model's calendar ([date_valid], [days_in_month]): only the value
+   type [pyval] is shared.  [spec_iso_in ty text = Some v] reads "for the data type named [ty] the
+   text [text] is a canonical ISO 8601 spelling and denotes [v]"; [None] = this clause says
+   nothing about the text (not: the text must be refused).
+
+   Grammar (ASCII digits only; every field has a fixed width):
+     DATE   = YYYY "-" MM "-" DD      year 0001..9999, month 01..12, day 01..last day of that month
+                                      (February has 29 days exactly in the Gregorian leap years)
+     CLOCK  = hh ":" mm ":" ss        hh 00..23, mm 00..59, ss 00..59
+     OFFSET = ("+" | "-") hh [":"] mm hh 00..23, mm 00..59, but not "-00:00" / "-0000" (ISO 8601
+                                      forbids a negative zero offset; left outside)
+     date                  ::= DATE
+     time, time.tz         ::= CLOCK | CLOCK OFFSET
+     dateTime, dateTime.tz ::= DATE "T" CLOCK | DATE " " CLOCK
+                             | DATE "T" CLOCK ("Z" | "z") | DATE "T" CLOCK OFFSET
+   Denotation: the fields as written (no conversion to another zone, no normalisation); no zone
+   designator = a naive value; "Z"/"z" = UTC offset 0; OFFSET = that many minutes east (+) or west
+   (-) of UTC.  The data type selects only the shape: the zone is never dropped for the naive types
+   nor invented for the .tz types (that a .tz variable then refuses a naive value is the job of the
+   validation clauses 2-4).  Deliberately outside (the library accepts some of them today; they are
+   judged by the model comparison only): a blank before OFFSET, "Z" on a time of day, a zone after the
+   blank-separated form, a clock-only text for `date`, fractions of a second, non-ASCII digits. *)
+Definition iso_digit (c : N) : option N :=
+  if (48 <=? c) && (c <=? 57) then Some (c - 48) else None.
+Definition iso_n2 (a b : N) : option N :=
+  match iso_digit a, iso_digit b with
+  | Some x, Some y => Some (10 * x + y)
+  | _, _ => None
+  end.
+Definition iso_n4 (a b c d : N) : option N :=
+  match iso_n2 a b, iso_n2 c d with
+  | Some x, Some y => Some (100 * x + y)
+  | _, _ => None
+  end.
+
+Definition iso_leap (y : N) : bool :=
+  if y mod 400 =? 0 then true else if y mod 100 =? 0 then false else y mod 4 =? 0.
+Definition iso_month_days (y m : N) : N :=
+  nth (N.to_nat m) [0; 31; if iso_leap y then 29 else 28; 31; 30; 31; 30; 31; 31; 30; 31; 30; 31] 0.
+Definition iso_date_ok (y m d : N) : bool :=
+  (1 <=? y) && (y <=? 9999) && (1 <=? m) && (m <=? 12) && (1 <=? d) && (d <=? iso_month_days y m).
+
+(* DATE at the head of a text; what follows it is returned *)
+Definition iso_read_date (s : pystr) : option (pdate * pystr) :=
+  match s with
+  | y3 :: y2 :: y1 :: y0 :: h1 :: m1 :: m0 :: h2 :: d1 :: d0 :: rest =>
+      match iso_n4 y3 y2 y1 y0, iso_n2 m1 m0, iso_n2 d1 d0 with
+      | Some y, Some m, Some d =>
+          if (h1 =? 45) && (h2 =? 45) && iso_date_ok y m d
+          then Some ({| dy := y; dm := m; dd := d |}, rest) else None
+      | _, _, _ => None
+      end
+  | _ => None
+  end.
+
+(* CLOCK at the head of a text; what follows it is returned *)
+Definition iso_read_clock (s : pystr) : option (N * N * N * pystr) :=
+  match s with
+  | h1 :: h0 :: c1 :: m1 :: m0 :: c2 :: s1 :: s0 :: rest =>
+      match iso_n2 h1 h0, iso_n2 m1 m0, iso_n2 s1 s0 with
+      | Some h, Some m, Some sec =>
+          if (c1 =? 58) && (c2 =? 58) && (h <=? 23) && (m <=? 59) && (sec <=? 59)
+          then Some (h, m, sec, rest) else None
+      | _, _, _ => None
+      end
+  | _ => None
+  end.
+
+(* OFFSET, the whole text: minutes east of UTC *)
+Definition iso_read_offset (s : pystr) : option Z :=
+  match s with
+  | sg :: rest =>
+      match match rest with
+            | [h1; h0; c; m1; m0] => if c =? 58 then Some (iso_n2 h1 h0, iso_n2 m1 m0) else None
+            | [h1; h0; m1; m0] => Some (iso_n2 h1 h0, iso_n2 m1 m0)
+            | _ => None
+            end with
+      | Some (Some h, Some m) =>
+          if (h <=? 23) && (m <=? 59) then
+            if sg =? 43 then Some (Z.of_N (60 * h + m))
+            else if (sg =? 45) && negb (60 * h + m =? 0) then Some (- Z.of_N (60 * h + m))%Z
+            else None
+          else None
+      | _ => None
+      end
+  | [] => None
+  end.
+
+(* the data types of the statement that take ISO 8601 texts, by their UPnP names (literals of the
+   specification, not read from the generated table) *)
+Inductive iso_kind := KDate | KTime | KDateTime.
+Definition iso_kind_of (ty : pystr) : option iso_kind :=
+  if str_eqb ty [100;97;116;101] then Some KDate                                       (* date *)
+  else if str_eqb ty [116;105;109;101] then Some KTime                                 (* time *)
+  else if str_eqb ty [116;105;109;101;46;116;122] then Some KTime                      (* time.tz *)
+  else if str_eqb ty [100;97;116;101;84;105;109;101] then Some KDateTime               (* dateTime *)
+  else if str_eqb ty [100;97;116;101;84;105;109;101;46;116;122] then Some KDateTime    (* dateTime.tz *)
+  else None.
+
+Definition iso_clock_val (h m sec : N) (tz : option Z) : ptime :=
+  {| th := h; tmi := m; ts := sec; ttz := tz |}.
+
+Definition spec_iso_in (ty text : pystr) : option pyval :=
+  match iso_kind_of ty with
+  | Some KDate =>
+      match iso_read_date text with
+      | Some (d, []) => Some (VDate d)
+      | _ => None
+      end
+  | Some KTime =>
+      match iso_read_clock text with
+      | Some (h, m, sec, []) => Some (VTime (iso_clock_val h m sec None))
+      | Some (h, m, sec, z) =>
+          match iso_read_offset z with
+          | Some off => Some (VTime (iso_clock_val h m sec (Some off)))
+          | None => None
+          end
+      | None => None
+      end
+  | Some KDateTime =>
+      match iso_read_date text with
+      | Some (d, sep :: r) =>
+          match iso_read_clock r with
+          | Some (h, m, sec, z) =>
+              if sep =? 84 then                                             (* "T" *)
+                match z with
+                | [] => Some (VDateTime d (iso_clock_val h m sec None))
+                | [c] => if (c =? 90) || (c =? 122)                          (* "Z" / "z" *)
+                         then Some (VDateTime d (iso_clock_val h m sec (Some 0%Z))) else None
+                | _ => match iso_read_offset z with
+                       | Some off => Some (VDateTime d (iso_clock_val h m sec (Some off)))
+                       | None => None
+                       end
+                end
+              else if sep =? 32 then                                        (* one blank *)
+                match z with
+                | [] => Some (VDateTime d (iso_clock_val h m sec None))
+                | _ => None
+                end
+              else None
+          | None => None
+          end
+      | _ => None
+      end
+  | None => None
+  end.
